@@ -590,7 +590,20 @@ def main(argv=None):
     for cname, (kind, msg) in broken:
         print(f"CHECKER-BROKEN property={prop} contract={cname} [{kind}] {msg}")
 
-    functions = sorted({f for r in results_a for f in r.get("functions", [])})
+    functions = {f for r in results_a for f in r.get("functions", [])}
+
+    def _declared(attr):
+        v = getattr(mod, attr, ())
+        try:
+            v = v() if callable(v) else v
+            return set(kit.function_ids(list(v)))
+        except Exception as e:  # noqa: BLE001  (a reporting aid must not break the check)
+            return {f"<{attr} failed: {type(e).__name__}: {e}>"}
+
+    # real functions whose behaviour is decided by static obligations (AST/LIA/exhaustive enumerations built by the contract file)
+    functions |= _declared("COVERS_STATIC") if static_results else set()
+    functions_bounded_only = sorted((_declared("COVERS_BOUNDED") if bounded_results else set()) - functions)
+    functions = sorted(functions)
     axioms = sorted({x for r in results_a for x in r.get("axioms", [])})
     samples = []
     for o, s in list(zip(obligations, solved))[:: max(1, len(obligations) // 8 or 1)][:8]:
@@ -611,6 +624,7 @@ def main(argv=None):
         "normal_form_seconds": round(sum(r.get("nf_seconds", 0.0) for r in results_a), 2),
         "solve_wall_s": round(solve_wall, 2),
         "functions_under_contract": functions,
+        "functions_reached_by_bounded_standins_only": functions_bounded_only,
         "contracts": [
             {
                 "name": r["contract"],
